@@ -715,3 +715,67 @@ func c19r9(rc *core.RC) {
 		rc.Check(bad == "", key, at, "every *OpcodeSet used by the OpInterface handler is a variable of the handler defined once, by encoder.CompileToGetCodeSet%s", map[bool]string{true: "", false: ": " + bad}[bad == ""])
 	}
 }
+
+// ---- C19.R10 a Filter that has children never answers with its receiver ----
+
+// Code.Filter projects a compiled code tree on a query. For a code that has children (the members of a struct, the
+// value of a pointer, slice, array or map, the value of a struct field) the answer has to be a new node built around
+// the FILTERED children: answering with the receiver itself, on any path, returns the unprojected subtree, and every
+// sub-query below that point is lost (the query keeps every member of a struct and narrows one of them).
+func c19r10(rc *core.RC) {
+	p := rc.P
+	n := 0
+	for _, fd := range p.Funcs("encoder") {
+		if fd.Recv == nil || fd.Body == nil || fd.Name.Name != "Filter" || len(fd.Recv.List[0].Names) == 0 {
+			continue
+		}
+		info := p.Info(fd)
+		recv := info.Defs[fd.Recv.List[0].Names[0]]
+		pt, isPtr := recv.Type().(*types.Pointer)
+		if !isPtr {
+			continue
+		}
+		st, isStruct := pt.Elem().Underlying().(*types.Struct)
+		if !isStruct {
+			continue
+		}
+		// children: fields whose type is the Code interface, a field code, or a list of field codes
+		var children []string
+		for i := 0; i < st.NumFields(); i++ {
+			t := st.Field(i).Type().String()
+			if strings.HasSuffix(t, "encoder.Code") || strings.HasSuffix(t, "encoder.StructFieldCode") {
+				children = append(children, st.Field(i).Name())
+			}
+		}
+		if len(children) == 0 {
+			continue
+		}
+		fn := p.FuncName(fd)
+		rc.Touch(fn)
+		k := 0
+		ast.Inspect(fd.Body, func(m ast.Node) bool {
+			r, ok := m.(*ast.ReturnStmt)
+			if !ok || len(r.Results) != 1 {
+				return true
+			}
+			n++
+			k++
+			key := fmt.Sprintf("%s/return#%d built-from-filtered-children", fn, k)
+			res := core.Unparen(r.Results[0])
+			if id, isIdent := res.(*ast.Ident); isIdent {
+				if def := core.ResolveSingleDef(info, fd.Body, id); def != nil {
+					res = core.Unparen(def)
+				}
+			}
+			if core.ObjOf(info, res) == recv {
+				rc.Bad(key, r.Pos(), "%s answers with its receiver on this path: the node has children (%s) and the query is not applied to them, so every sub-query below a struct of which all members are selected (or below this pointer, slice, map) is ignored", fn, strings.Join(children, ", "))
+				return true
+			}
+			rc.OK(key, r.Pos(), "a node of its own is returned")
+			return true
+		})
+	}
+	if n < 5 {
+		rc.Unknown("encoder/filters-with-children", token.NoPos, "found %d returns in Filter methods of code types with children (confirmed: struct, struct field, pointer, slice, array, map)", n)
+	}
+}
